@@ -68,7 +68,13 @@ pub fn hist(a: &Args, rep: &mut Report) {
     let profile = Profile::parse(&a.str("profile", "general")).expect("profile");
     let small = cfg!(miri) || a.has("small");
     let want_transcript = a.has("transcript");
-    let mut transcript_out = String::new();
+    // transcripts are appended history by history (and flushed), so that what a process wrote
+    // before dying can still be compared
+    let mut transcript_file = if want_transcript {
+        Some(std::fs::File::create(a.str("transcript", "transcript.txt")).expect("create transcript"))
+    } else {
+        None
+    };
     let mut rng = sh.rng(profile as u64);
     let focus = crate::run::static_prop(&rep.prop);
     rep.notes.insert("profile".into(), format!("{profile:?}"));
@@ -86,33 +92,33 @@ pub fn hist(a: &Args, rep: &mut Report) {
         let mut p = plan(&mut hr, profile, small);
         p.cfg.focus = focus;
         let mut gen = Gen::new(hr.next(), profile, p.keyspace, p.tail, p.max_len);
+        if let Some(f) = &mut transcript_file {
+            use std::io::Write as _;
+            let _ = writeln!(f, "## history {} {}", h, p.cfg.describe());
+            let _ = f.flush();
+        }
         let end_probe = matches!(profile, Profile::Headroom | Profile::Capacity | Profile::General) && hr.chance(1, 2);
         let out = run_generated(&p.cfg, &mut gen, want_transcript, end_probe);
-        if want_transcript {
-            use std::fmt::Write as _;
-            let _ = writeln!(transcript_out, "## history {} {}", h, p.cfg.describe());
-            if let Some(t) = &out.transcript {
-                for l in t {
-                    let _ = writeln!(transcript_out, "{l}");
+        if let Some(f) = &mut transcript_file {
+            use std::io::Write as _;
+            let mut t = String::new();
+            if let Some(tr) = &out.transcript {
+                for l in tr {
+                    t.push_str(l);
+                    t.push('\n');
                 }
             }
             match &out.viol {
-                None => {
-                    let _ = writeln!(transcript_out, "## end ok");
-                }
-                Some((v, at)) => {
-                    let _ = writeln!(transcript_out, "## end VIOL {} at op {}: {}", v.prop, at, v.msg);
-                }
+                None => t.push_str("## end ok\n"),
+                Some((v, at)) => t.push_str(&format!("## end VIOL {} at op {}: {}\n", v.prop, at, v.msg)),
             }
+            let _ = f.write_all(t.as_bytes());
+            let _ = f.flush();
         }
         let tag = format!("{}-{}-s{}-i{}-h{}", rep.workload, flavour(), sh.seed, sh.index, h);
         rep.bump(&format!("histories_{}", p.cfg.elem.name()), 1);
         rep.bump(&format!("histories_hasher_{:?}", p.cfg.bh.mode), 1);
         rep.record(&p.cfg, &tag, out, |s| s.hist_split && s.hist_old_hit);
-    }
-    if want_transcript {
-        let path = a.str("transcript", "transcript.txt");
-        std::fs::write(&path, transcript_out).expect("write transcript");
     }
 }
 
